@@ -211,7 +211,7 @@ func runC02(c *explore.Ctx) {
 		forEachProfileDoc(c, s, "", func(d kitDoc) { s.Transitions++; c02Doc(c, s, d) })
 		s.WallS = time.Since(t0).Seconds()
 	}
-	n := c.Pick(7, 9)
+	n := c.Pick(7, 11)
 	s = c.Sub("type-blind", fmt.Sprintf("every sentence of ≤ %d tokens of the executable grammar G¹ with every assignment of %d schema and non-schema names to its ≤ 4 name positions (semantically nonsense documents)", n, len(kitVocab)),
 		"as above", "documents with at least one error")
 	if s != nil {
